@@ -25,6 +25,12 @@ var linePool = [][][]string{
 	{{"a"}, {""}},
 	{{""}, {"a"}},
 	{{"a"}, {}},
+	// texts that differ by letter case only are different texts
+	{{"A"}},
+	{{"É", " ☃"}},
+	{{"a - B"}},
+	{{"k"}},
+	{{"\u212a"}},
 }
 
 type span struct{ s, e int64 }
@@ -496,6 +502,11 @@ func init() {
 			pool := []int{0, 2, 3, 4, 6, 7}
 			if r.chance(1, 3) { // texts that differ only by an empty line or an empty run
 				pool = []int{0, 9, 10, 11, 8, 0}
+			} else if r.chance(1, 4) { // or only by letter case
+				pool = []int{0, 12, 5, 13, 15, 16}
+				if r.bool() {
+					pool = []int{3, 14, 0, 12, 15, 16}
+				}
 			}
 			for j := range xs {
 				xs[j].lines = linePool[pool[r.intn(nt*2)%len(pool)]]
@@ -557,8 +568,13 @@ func init() {
 		}
 		da, db := ga.build(), gb.build()
 		sa.Regions, sa.Styles, sb.Regions, sb.Styles = da.Regions, da.Styles, db.Regions, db.Styles
-		if kind == "1" { // receiver built without the constructor
+		switch kind { // receiver built without the constructor: both maps missing, or one of them
+		case "1":
 			sa.Regions, sa.Styles = nil, nil
+		case "2":
+			sa.Regions = nil
+		case "3":
+			sa.Styles = nil
 		}
 		// a cue whose style / region identifier is defined in its list's maps points to that very definition
 		for _, sx := range []*astisub.Subtitles{sa, sb} {
@@ -616,12 +632,26 @@ func init() {
 				xb[j].pay += 1000
 			}
 			ga, gb := randGraph(r, false, false), randGraph(r, false, false)
-			// B's keys equal its ids (what every reader and constructor user produces)
-			for j := range gb.regions {
-				gb.regions[j].key = gb.regions[j].id
+			// B's keys equal its ids (what every reader and constructor user produces) — or, now and then, they don't
+			// (hand-built lists; the writers accept them), as long as no identifier is stored twice (the result would
+			// follow the map's iteration order)
+			uniq := func(ds []gDef) bool {
+				seen := map[string]bool{}
+				for _, d := range ds {
+					if seen[d.id] {
+						return false
+					}
+					seen[d.id] = true
+				}
+				return true
 			}
-			for j := range gb.styles {
-				gb.styles[j].key = gb.styles[j].id
+			if !(r.chance(1, 4) && uniq(gb.regions) && uniq(gb.styles)) {
+				for j := range gb.regions {
+					gb.regions[j].key = gb.regions[j].id
+				}
+				for j := range gb.styles {
+					gb.styles[j].key = gb.styles[j].id
+				}
 			}
 			if len(xb) > 0 && r.chance(1, 3) {
 				// a cue of B uses a style (a region) defined in B's maps, and A defines another one under the same identifier
@@ -633,8 +663,14 @@ func init() {
 			}
 			kind := 0
 			if r.chance(1, 4) {
-				kind = 1
-				ga.regions, ga.styles = nil, nil
+				switch kind = 1 + r.intn(3); kind {
+				case 1:
+					ga.regions, ga.styles = nil, nil
+				case 2:
+					ga.regions = nil
+				case 3:
+					ga.styles = nil
+				}
 			}
 			c.do(fmt.Sprintf("ops.merge %d %s %s %s %s", kind, encMItems(xa), encMItems(xb), ga.enc(), gb.enc()))
 			c.count("random")
